@@ -2229,7 +2229,9 @@ class CIMInstanceName(_CIMComparisonMixin, SlottedPickleMixin):
                 # which is the precision needed to round-trip double precision
                 # IEE-754 floating point numbers between decimal and binary
                 # without loss.
-                ret.append(repr(value))
+                # Note that repr() on a CIMFloat object returns its debug
+                # representation, so it is converted to float first.
+                ret.append(repr(float(value)))
             elif isinstance(value, (CIMInt, int)):
                 # intNN
                 ret.append(str(value))
